@@ -496,3 +496,32 @@ fn remove_k4_012_j2() {
 fn remove_k4_012_j3() {
     check_remove(4, &[0, 0, 1, 2], 3);
 }
+
+// ---------------- generic helpers for the harnesses of other modules (timer) ----------------
+/// `n` reaches the root of `h` by following at most `max` parent links
+pub fn reaches_root<T>(h: &PairingHeap<T>, n: &HeapNode<T>, max: usize) -> bool {
+    let mut cur: *const HeapNode<T> = n;
+    let mut s = 0;
+    let mut r = false;
+    while s <= max {
+        unsafe {
+            match (*cur).parent {
+                None => {
+                    if let Some(root) = h.root {
+                        if core::ptr::eq(root.as_ptr() as *const HeapNode<T>, cur) {
+                            r = true;
+                        }
+                    }
+                    return r;
+                }
+                Some(p) => cur = p.as_ptr(),
+            }
+        }
+        s += 1;
+    }
+    false
+}
+/// the node carries no links at all
+pub fn node_unlinked<T>(n: &HeapNode<T>) -> bool {
+    n.parent.is_none() && n.prev.is_none() && n.next.is_none() && n.first_child.is_none()
+}
